@@ -49,6 +49,7 @@ type Step struct {
 	Amt     int64    `json:"amt"`
 	Ans     int    `json:"ans"` // recharge: status the consumer's notification endpoint answers with (0 = 204)
 	Addr    string `json:"addr"` // create: which address members the consumer identification carries
+	Upf     string `json:"upf"`  // update/release: UPF identifier of the usage entries (default "upf"+session label)
 	Pad     int      `json:"pad"`
 	Chid    int32    `json:"chid"`
 	Tz      *int     `json:"tz"` // seconds east of UTC to install as time.Local before the step
@@ -191,7 +192,11 @@ func (d *SeqDriver) runOne(b *Behaviour) {
 				for _, us := range st.Usage {
 					key := st.U + "|" + us.Rg
 					remaining := lastGrant[key]
-					entry := map[string]any{"ratingGroup": rgNum(us.Rg), "uPFID": "upf" + st.S}
+					upf := "upf" + st.S
+					if st.Upf != "" {
+						upf = st.Upf
+					}
+					entry := map[string]any{"ratingGroup": rgNum(us.Rg), "uPFID": upf}
 					if us.Req >= 0 {
 						entry["requestedUnit"] = map[string]any{"totalVolume": us.Req}
 					}
